@@ -7,6 +7,7 @@ import (
 	"context"
 	"errors"
 	"fmt"
+	"math"
 	"math/rand"
 	"sort"
 	"strconv"
@@ -30,6 +31,26 @@ const (
 // OrderTab mirrors the table of the specification.
 var OrderTab = []int{-1, 0, 2, 5}
 
+// realOrder: the shutdown order handed to the real daemon for the model's order o. Only the relative order of the values
+// matters to the specification; half of the configurations use the far ends of the int range instead (MinInt, -1, 1, MaxInt).
+func realOrder(o int, extreme bool) int {
+	if !extreme {
+		return o
+	}
+	switch o {
+	case -1:
+		return math.MinInt
+	case 0:
+		return -1
+	case 2:
+		return 1
+	case 5:
+		return math.MaxInt
+	}
+	return o
+}
+
+
 // inst is one started handler.
 type inst struct {
 	name  int
@@ -45,6 +66,7 @@ type logEv struct {
 }
 
 type dSUT struct {
+	extreme bool // this instance hands the far ends of the int range to the daemon as shutdown orders (realOrder)
 	d       *hive.OrderedDaemon
 	gate    *sched.Gate
 	aux     *sched.Thread
@@ -93,6 +115,7 @@ func (s *dSUT) Reset(cfg core.Ev) {
 	g := s.gate
 	hive.VerifHook = func(point string) { g.Wait("hook:" + point) }
 	s.d = hive.New()
+	s.extreme = len(core.Ints(cfg, "late"))%2 == 0 // a function of the cfg, so that a recorded path replays the same way
 	s.late = map[int]bool{}
 	s.names = core.Int(cfg, "names")
 	for _, w := range core.Ints(cfg, "late") {
@@ -201,7 +224,8 @@ func (s *dSUT) Apply(e core.Ev) (any, any) {
 	op := core.Str(e, "op")
 	add := func(w, o int) func() any {
 		h := s.handler(w, o)
-		return func() any { return errClass(d.BackgroundWorker(wname(w), h, o)) }
+		ro := realOrder(o, s.extreme)
+		return func() any { return errClass(d.BackgroundWorker(wname(w), h, ro)) }
 	}
 	switch op {
 	case "Add":
